@@ -10,10 +10,10 @@ package main
 
 import (
 	"fmt"
-	"math"
 	"math/big"
 	"os"
 	"sort"
+	"strconv"
 	"strings"
 	"time"
 
@@ -230,20 +230,35 @@ func implSummary(r *region, res callRes) string {
 		return res.fail
 	}
 	all := r.all()
-	var s int64
 	for _, t := range res.tris {
 		for _, v := range t {
 			if v < 0 {
 				return "foreign-vertex"
 			}
 		}
+	}
+	if r.sc.f != 0 {
+		// rounded inputs: sum of |areas| of the returned triangles, exactly, on the float64 inputs
+		ex := r.exactPts()
+		sum := new(big.Rat)
+		for _, t := range res.tris {
+			a := orientRat(ex[t[0]], ex[t[1]], ex[t[2]])
+			sum.Add(sum, a.Abs(a))
+		}
+		sum.Quo(sum, big.NewRat(2, 1))
+		return fmt.Sprintf("ok area=%s n=%d", showRatFull(sum), len(res.tris))
+	}
+	var s int64
+	for _, t := range res.tris {
 		a := orient(all[t[0]], all[t[1]], all[t[2]])
 		if a < 0 {
 			a = -a
 		}
 		s += a
 	}
-	return fmt.Sprintf("ok area=%s n=%d", ratAreaFull(s, r.den), len(res.tris))
+	q := new(big.Rat).SetFrac(big.NewInt(s), new(big.Int).Mul(big.NewInt(2), new(big.Int).Mul(big.NewInt(r.den), big.NewInt(r.den))))
+	q.Mul(q, r.sc.dyadicPow(2))
+	return fmt.Sprintf("ok area=%s n=%d", showRatFull(q), len(res.tris))
 }
 
 func opTris(res callRes, sortThem bool) string {
@@ -281,7 +296,11 @@ func genPoly(c *hlib.Ctx, maxN int) ([]ipt, string) {
 	for {
 		var p []ipt
 		var fam string
-		switch r.Intn(12) {
+		switch r.Intn(13) {
+		case 12:
+			// quadrilaterals and pentagons (a third of random quads are concave "darts"): the
+			// vertex counts where special-cased fast paths live
+			p, fam = gen2opt(r, 1+r.Int63n(12), 4+r.Intn(2)), "quad-pent"
 		case 0:
 			p, fam = genConvex(r, 8+r.Int63n(40), 3+r.Intn(maxN)), "convex"
 		case 1:
@@ -335,20 +354,27 @@ func runEar(c *hlib.Ctx, n int) {
 				rots = append(rots, c.Rng.Intn(len(p)))
 			}
 		}
-		for _, k := range rots {
-			for rev := 0; rev < 2; rev++ {
-				q := rotated(p, k)
-				if rev == 1 {
-					q = reversed(q)
+		// the polygon at unit scale, then the same polygon in another unit of length
+		base := &region{den: den, loops: [][]ipt{p}}
+		pl := placed(c.Rng, base, true, false)
+		for _, rr := range []*region{base, pl} {
+			c.Stat("ear.scale."+rr.sc.name(), 1)
+			pp := rr.loops[0]
+			for _, k := range rots {
+				for rev := 0; rev < 2; rev++ {
+					q := rotated(pp, k)
+					if rev == 1 {
+						q = reversed(q)
+					}
+					r := &region{den: den, loops: [][]ipt{q}, sc: rr.sc}
+					poly := make([]model2d.Coord, len(q))
+					for j, v := range q {
+						poly[j] = r.coord(v)
+					}
+					res := call2d(r, func() [][3]model2d.Coord { return model2d.Triangulate(poly) })
+					statRes(c, "ear", r, res)
+					c.Emit("c14 ear "+r.header()+" "+opTris(res, false), implSummary(r, res))
 				}
-				r := &region{den: den, loops: [][]ipt{q}}
-				poly := make([]model2d.Coord, len(q))
-				for j, v := range q {
-					poly[j] = r.coord(v)
-				}
-				res := call2d(r, func() [][3]model2d.Coord { return model2d.Triangulate(poly) })
-				statRes(c, "ear", r, res)
-				c.Emit("c14 ear "+r.header()+" "+opTris(res, false), implSummary(r, res))
 			}
 		}
 	}
@@ -476,7 +502,7 @@ func bbox(p []ipt) (minx, miny, maxx, maxy int64) {
 }
 
 func (r *region) mapped(m rigid) *region {
-	out := &region{den: r.den}
+	out := &region{den: r.den, sc: r.sc}
 	for _, l := range r.loops {
 		q := mapPts(l, m.f)
 		if m.flip {
@@ -500,6 +526,10 @@ func runMesh(c *hlib.Ctx, n int) {
 		}
 		rg := rigids(c.Rng)
 		r = r.mapped(rg[c.Rng.Intn(len(rg))])
+		if c.Rng.Intn(2) == 0 {
+			r = placed(c.Rng, r, true, true)
+		}
+		c.Stat("mesh.scale."+r.sc.name(), 1)
 		m := r.mesh()
 		res := call2d(r, func() [][3]model2d.Coord { return model2d.TriangulateMesh(m) })
 		statRes(c, "mesh", r, res)
@@ -541,7 +571,7 @@ func shearDistinct(r *region) *region {
 		if k > 0 {
 			K = 64
 		}
-		out := &region{den: r.den}
+		out := &region{den: r.den, sc: r.sc}
 		for _, l := range r.loops {
 			out.loops = append(out.loops, mapPts(l, func(p ipt) ipt { return ipt{K*p.x + k*p.y, p.y} }))
 		}
@@ -581,6 +611,10 @@ func runSingle(c *hlib.Ctx, n int) {
 		if r == nil {
 			continue
 		}
+		if c.Rng.Intn(3) == 0 {
+			r.sc = pickDyadic(c.Rng)
+		}
+		c.Stat("single.scale."+r.sc.name(), 1)
 		segs := r.segs()
 		res := call2d(r, func() [][3]model2d.Coord { return model2d.VerifTriangulateSingleMesh(segs) })
 		statRes(c, "single", r, res)
@@ -595,6 +629,9 @@ func runMono(c *hlib.Ctx, n int) {
 			continue
 		}
 		r := &region{den: randDen(c), loops: [][]ipt{p}}
+		if c.Rng.Intn(3) == 0 {
+			r.sc = pickDyadic(c.Rng)
+		}
 		segs := r.segs()
 		res := call2d(r, func() [][3]model2d.Coord { return model2d.VerifTriangulateMonotoneMesh(segs) })
 		statRes(c, "mono", r, res)
@@ -612,6 +649,9 @@ func runVType(c *hlib.Ctx, n int) {
 		r = shearDistinct(r)
 		if r == nil {
 			continue
+		}
+		if c.Rng.Intn(3) == 0 {
+			r.sc = pickDyadic(c.Rng)
 		}
 		segs := r.segs()
 		ids := r.ids()
@@ -659,6 +699,9 @@ func runSplits(c *hlib.Ctx, n int) {
 		if r == nil {
 			continue
 		}
+		if c.Rng.Intn(3) == 0 {
+			r.sc = pickDyadic(c.Rng)
+		}
 		segs := r.segs()
 		ids := r.ids()
 		impl := guarded(func() string {
@@ -688,6 +731,10 @@ func runEarSeq(c *hlib.Ctx, n int) {
 		}
 		p = rotated(p, c.Rng.Intn(len(p)))
 		r := &region{den: randDen(c), loops: [][]ipt{p}}
+		if c.Rng.Intn(2) == 0 {
+			r.sc = pickDyadic(c.Rng)
+		}
+		c.Stat("earseq.scale."+r.sc.name(), 1)
 		poly := make([]model2d.Coord, len(p))
 		for j, v := range p {
 			poly[j] = r.coord(v)
@@ -732,6 +779,16 @@ func embeddings(r interface{ Int63n(int64) int64 }) []emb3 {
 func runFace(c *hlib.Ctx, n int) {
 	for i := 0; i < n; i++ {
 		p, fam := genPoly(c, 10)
+		if c.Rng.Intn(4) == 0 {
+			// a quarter of the faces are quads / pentagons (by far the most common face types of
+			// polygonal files), convex and concave
+			for {
+				p, fam = gen2opt(c.Rng, 1+c.Rng.Int63n(12), 4+c.Rng.Intn(2)), "quad-pent"
+				if isSimple(p) {
+					break
+				}
+			}
+		}
 		c.Stat("face.family."+fam, 1)
 		if c.Rng.Intn(2) == 0 {
 			p = reversed(p)
@@ -739,22 +796,87 @@ func runFace(c *hlib.Ctx, n int) {
 		p = rotated(p, c.Rng.Intn(len(p)))
 		den := randDen(c)
 		es := embeddings(c.Rng)
-		e := es[c.Rng.Intn(len(es))]
+		ei := c.Rng.Intn(len(es))
+		// placement in another unit of length (half of the cases).  A non-dyadic factor rounds every
+		// coordinate, which keeps the face exactly planar only in the axis-parallel embeddings (one
+		// coordinate constant), and needs the polygon in general position (see scale.go).
+		var sc scaleSpec
+		if c.Rng.Intn(2) == 0 {
+			sc = pickScale(c.Rng, ei < 4)
+			if sc.f != 0 {
+				j := jitterGeneral(c.Rng, [][]ipt{p}, false)
+				if j == nil {
+					sc = pickDyadic(c.Rng)
+				} else {
+					p = j[0]
+				}
+			}
+		}
+		e := es[ei]
 		c.Stat("face.emb."+e.name, 1)
+		c.Stat("face.scale."+sc.name(), 1)
 		pts := make([][3]int64, len(p))
 		poly := make([]model3d.Coord3D, len(p))
 		ids := map[model3d.Coord3D]int{}
+		var vals []float64
 		for j, q := range p {
 			pts[j] = e.f(q)
-			poly[j] = model3d.XYZ(float64(pts[j][0])/float64(den), float64(pts[j][1])/float64(den), float64(pts[j][2])/float64(den))
+			poly[j] = model3d.XYZ(sc.apply(float64(pts[j][0])/float64(den)), sc.apply(float64(pts[j][1])/float64(den)),
+				sc.apply(float64(pts[j][2])/float64(den)))
 			ids[poly[j]] = j
+			vals = append(vals, poly[j].X, poly[j].Y, poly[j].Z)
 		}
 		var out []*model3d.Triangle
-		fail := guarded(func() string { out = model3d.TriangulateFace(poly); return "" })
+		kind := "face"
+		var fail string
+		if c.Rng.Intn(4) == 0 {
+			// the same face as the single polygon of an OFF file, through ReadOFF (vertex table in
+			// a random order, shortest round-tripping decimal representation of every float64)
+			kind = "off"
+			perm := c.Rng.Perm(len(poly))
+			inv := make([]int, len(poly))
+			var off strings.Builder
+			fmt.Fprintf(&off, "OFF\n%d 1 0\n", len(poly))
+			for pos, j := range perm {
+				inv[j] = pos
+				fmt.Fprintf(&off, "%s %s %s\n", strconv.FormatFloat(poly[j].X, 'g', -1, 64),
+					strconv.FormatFloat(poly[j].Y, 'g', -1, 64), strconv.FormatFloat(poly[j].Z, 'g', -1, 64))
+			}
+			fmt.Fprintf(&off, "%d", len(poly))
+			for j := range poly {
+				fmt.Fprintf(&off, " %d", inv[j])
+			}
+			off.WriteString("\n")
+			text := off.String()
+			fail = guarded(func() string {
+				ts, err := model3d.ReadOFF(strings.NewReader(text))
+				if err != nil {
+					return "error"
+				}
+				out = ts
+				return ""
+			})
+		} else {
+			fail = guarded(func() string { out = model3d.TriangulateFace(poly); return "" })
+		}
+		c.Stat("face.via."+kind, 1)
 		var sb strings.Builder
-		fmt.Fprintf(&sb, "c14 face D %d P %d", den, len(p))
-		for _, q := range pts {
-			fmt.Fprintf(&sb, " %d %d %d", q[0], q[1], q[2])
+		if sc.f != 0 {
+			// the rounded float64 coordinates, exactly
+			d, ints := exactInts(vals)
+			fmt.Fprintf(&sb, "c14 %s D %s P %d", kind, d.String(), len(p))
+			for _, v := range ints {
+				fmt.Fprintf(&sb, " %s", v.String())
+			}
+		} else {
+			sb.WriteString("c14 " + kind + " ")
+			if sc.k != 0 {
+				fmt.Fprintf(&sb, "S %d ", sc.k)
+			}
+			fmt.Fprintf(&sb, "D %d P %d", den, len(p))
+			for _, q := range pts {
+				fmt.Fprintf(&sb, " %d %d %d", q[0], q[1], q[2])
+			}
 		}
 		impl := fail
 		if fail != "" {
@@ -792,11 +914,15 @@ func runFace(c *hlib.Ctx, n int) {
 func runProfile(c *hlib.Ctx, n int) {
 	for i := 0; i < n; i++ {
 		r := genRegion(c, 1+c.Rng.Intn(4))
+		if c.Rng.Intn(2) == 0 {
+			r = placed(c.Rng, r, true, true)
+		}
+		c.Stat("profile.scale."+r.sc.name(), 1)
 		z0 := c.Rng.Int63n(17) - 8
 		z1 := z0 + 1 + c.Rng.Int63n(9)
 		m2 := r.mesh()
 		ids := r.ids()
-		fz0, fz1 := float64(z0)/float64(r.den), float64(z1)/float64(r.den)
+		fz0, fz1 := r.sc.apply(float64(z0)/float64(r.den)), r.sc.apply(float64(z1)/float64(r.den))
 		var tris []itri
 		fail := guarded(func() string {
 			m := model3d.ProfileMesh(m2, fz0, fz1)
@@ -822,28 +948,58 @@ func runProfile(c *hlib.Ctx, n int) {
 			return ""
 		})
 		c.Stat("profile.cases", 1)
-		op := fmt.Sprintf("c14 profile %s Z %d %d ", r.header(), z0, z1)
+		var op string
+		if r.sc.f != 0 {
+			op = fmt.Sprintf("c14 profile %s ", r.headerZ([]float64{fz0, fz1}))
+		} else {
+			op = fmt.Sprintf("c14 profile %s Z %d %d ", r.header(), z0, z1)
+		}
 		if fail != "" {
 			c.Emit(op+"T x", fail)
 			continue
 		}
 		tris = canonTris(tris, true)
-		// exact signed volume: sum det(a,b,c)/6 in lattice units / den^3
-		all := r.all()
-		var s int64
-		p3 := func(id int) [3]int64 {
-			z := z0
-			if id%2 == 1 {
-				z = z1
+		var vol *big.Rat
+		if r.sc.f != 0 {
+			// exact signed volume of the soup on the rounded float64 inputs
+			ex := r.exactPts()
+			q0, q1 := new(big.Rat).SetFloat64(fz0), new(big.Rat).SetFloat64(fz1)
+			p3 := func(id int) [3]*big.Rat {
+				z := q0
+				if id%2 == 1 {
+					z = q1
+				}
+				return [3]*big.Rat{ex[id/2][0], ex[id/2][1], z}
 			}
-			return [3]int64{all[id/2].x, all[id/2].y, z}
+			mul := func(a, b *big.Rat) *big.Rat { return new(big.Rat).Mul(a, b) }
+			sub := func(a, b *big.Rat) *big.Rat { return new(big.Rat).Sub(a, b) }
+			s := new(big.Rat)
+			for _, t := range tris {
+				a, b, cc := p3(t[0]), p3(t[1]), p3(t[2])
+				s.Add(s, mul(a[0], sub(mul(b[1], cc[2]), mul(b[2], cc[1]))))
+				s.Sub(s, mul(a[1], sub(mul(b[0], cc[2]), mul(b[2], cc[0]))))
+				s.Add(s, mul(a[2], sub(mul(b[0], cc[1]), mul(b[1], cc[0]))))
+			}
+			vol = s.Quo(s, big.NewRat(6, 1))
+		} else {
+			// exact signed volume: sum det(a,b,c)/6 in lattice units / den^3
+			all := r.all()
+			var s int64
+			p3 := func(id int) [3]int64 {
+				z := z0
+				if id%2 == 1 {
+					z = z1
+				}
+				return [3]int64{all[id/2].x, all[id/2].y, z}
+			}
+			for _, t := range tris {
+				a, b, cc := p3(t[0]), p3(t[1]), p3(t[2])
+				s += a[0]*(b[1]*cc[2]-b[2]*cc[1]) - a[1]*(b[0]*cc[2]-b[2]*cc[0]) + a[2]*(b[0]*cc[1]-b[1]*cc[0])
+			}
+			d3 := new(big.Int).Mul(big.NewInt(6), new(big.Int).Mul(big.NewInt(r.den), new(big.Int).Mul(big.NewInt(r.den), big.NewInt(r.den))))
+			vol = new(big.Rat).SetFrac(big.NewInt(s), d3)
+			vol.Mul(vol, r.sc.dyadicPow(3))
 		}
-		for _, t := range tris {
-			a, b, cc := p3(t[0]), p3(t[1]), p3(t[2])
-			s += a[0]*(b[1]*cc[2]-b[2]*cc[1]) - a[1]*(b[0]*cc[2]-b[2]*cc[0]) + a[2]*(b[0]*cc[1]-b[1]*cc[0])
-		}
-		d3 := new(big.Int).Mul(big.NewInt(6), new(big.Int).Mul(big.NewInt(r.den), new(big.Int).Mul(big.NewInt(r.den), big.NewInt(r.den))))
-		vol := new(big.Rat).SetFrac(big.NewInt(s), d3)
 		c.Emit(op+trisField(tris), fmt.Sprintf("ok vol=%s n=%d", showRatFull(vol), len(tris)))
 	}
 }
